@@ -954,6 +954,8 @@ def run(chk):
     chk.guard(rule_r6, chk)
     from . import c20
     chk.guard(c20.rule_r7, chk, rid="C02-R7")
+    from .. import unused as _unused
+    chk.guard(_unused.apply, chk, "C02-R91")
     from .. import args as _args
     chk.guard(_args.apply, chk, "C02-R90", {'aldi', 'jacobians', 'period_by_period', 'stacked_time', 'steadiers'}, 1)
     chk.assumptions = [
